@@ -75,7 +75,13 @@ func (sw *StrWalk) strOf(v ssa.Value, depth int) (string, bool) {
 	if depth > 40 || v == nil {
 		return "", false
 	}
-	v = sw.val.Root(v)
+	// the value may live in a caller's frame (a string handed to a helper):
+	// everything below is evaluated there
+	v, fr := sw.val.RootF(v)
+	if fr != nil {
+		old := sw.val.SetFrame(fr)
+		defer sw.val.SetFrame(old)
+	}
 	if s, ok := sw.Bind(v); ok {
 		return s, true
 	}
